@@ -344,9 +344,11 @@ fn binding_cases() -> Vec<(String, Case)> {
 /// x 2 name pairs (in both lexical orders) x stand-alone/step.
 fn sibling_cases() -> Vec<(String, Case)> {
     let mut out = Vec::new();
-    for level in 0..2 {
+    for level in 0..4 {
         // level 0: m:x = helmert <k1>=.. <k2>=..          (k1, k2 are helmert's own keys)
         // level 1: m:x = i:pq <k1>=.. <k2>=.. ; i:pq = helmert x=$<k1>(0) y=$<k2>(0)
+        // level 2: m:x = addone | i:pq <k1>=.. <k2>=..    (the nested invocation is a STEP of a pipeline body)
+        // level 3: i:pq <k1>=.. <k2>=.. at top level (no caller: every look-up is unresolved, defaults apply)
         let pairs: [(&str, &str); 2] = if level == 0 { [("x", "y"), ("y", "x")] } else { [("p", "q"), ("q", "p")] };
         for (k1, k2) in pairs {
             let forms = |_own: &str| -> Vec<Bind> {
@@ -369,7 +371,11 @@ fn sibling_cases() -> Vec<(String, Case)> {
                             if level == 0 {
                                 macros.insert("m:x".to_string(), vec![SStep::new("helmert", &args)]);
                             } else {
-                                macros.insert("m:x".to_string(), vec![SStep::new("i:pq", &args)]);
+                                if level == 1 {
+                                    macros.insert("m:x".to_string(), vec![SStep::new("i:pq", &args)]);
+                                } else if level == 2 {
+                                    macros.insert("m:x".to_string(), vec![SStep::new("addone", &[]), SStep::new("i:pq", &args)]);
+                                }
                                 macros.insert(
                                     "i:pq".to_string(),
                                     vec![SStep::new("helmert", &[("x", Bind::RefDef(k1.into(), "0".into())), ("y", Bind::RefDef(k2.into(), "0".into()))])],
@@ -385,7 +391,14 @@ fn sibling_cases() -> Vec<(String, Case)> {
                             if subset & 4 != 0 {
                                 cargs.push(("w".to_string(), Bind::Lit("3".into())));
                             }
-                            let call = SStep { name: "m:x".into(), args: cargs, inv: 0 };
+                            let call = if level == 3 {
+                                if subset != 0 {
+                                    continue; // there is no caller at top level
+                                }
+                                SStep::new("i:pq", &args)
+                            } else {
+                                SStep { name: "m:x".into(), args: cargs, inv: 0 }
+                            };
                             let top: Body = if as_step { vec![SStep::new("addone", &[]), call] } else { vec![call] };
                             let cross = matches!((i1, i2), (2, _) | (5, _) | (_, 1) | (_, 4));
                             let label = format!("sibling/level{level}/{}", if cross { "cross reference" } else { "no cross reference" });
